@@ -19,6 +19,7 @@ from ..typestate import Walker
 RULES = {
     'C14.R1': 'no solve is issued while the previous solve is unchecked, nor after a non-Optimal status was observed (typestate, loops to fixpoint, value-sensitive helper summaries)',
     'C14.R3': "run() returns LpStatus of the latest solve and Solver.solve stores exactly that in model.pulp_status",
+    'C14.R5': 'the time limit handed to solve() is the one recorded on the model (the Timeout gate reads it) and the one given to the MILP solver',
     'C14.R4': 'matching / statistics / stability_correct output is edge-dominated by the Timeout gate (limit set and (Not Solved or total_s > limit)) and by the Optimal gate',
     'C14.R5': 'brute-force results never read LP state (lp_var, varValue, pulp_status)',
 }
@@ -95,6 +96,40 @@ def run(rep, repo, tier):
     check_status_plumbing(rep, repo)
     check_output_gates(rep, repo)
     check_bf(rep, repo)
+    check_limit_plumbing(rep, repo)
+
+
+def check_limit_plumbing(rep, repo):
+    """R5: the limit handed to Solver.solve is the limit get_results compares the elapsed time with, and the one the MILP
+    solver is given: model.time_limit = <timeLimit parameter> is stored before the run starts"""
+    rule = 'C14.R5'
+    f = repo.method('Solver', 'solve')
+    ps = [p_ for p_ in f.params if p_ != 'self']
+    if len(ps) < 2:
+        rep.inconclusive(rule, f.where, 'solve(msg, timeLimit, threads, write) has a time limit parameter', got=ps)
+        return
+    lim = S(ps[1])
+    try:
+        effs, _ = Interp(repo).run(f, {p_: S(p_) for p_ in ps})
+    except Unknown as u:
+        rep.inconclusive(rule, f.where, 'Solver.solve is inside the interpreted fragment', got=str(u))
+        return
+    order = [e for e, c in iter_effects(effs)]
+    stores = [e for e in order if e.kind == 'store' and e.target[0] == 'attr' and e.target[2] == 'time_limit']
+    runs = [e for e in order if e.kind in ('call', 'callo') and getattr(e.target, 'name', '') == 'run']
+    ok_store = bool(stores) and all(e.value == lim for e in stores)
+    rep.check(ok_store, rule, f.where, 'the time limit given to solve() is recorded on the model (get_results decides Timeout from it)',
+              got=[show(e.value) for e in stores] or 'model.time_limit is never set', want='self.model.time_limit = %s' % ps[1], construct='time limit not recorded on the model')
+    if ok_store and runs:
+        first_run = min(order.index(e) for e in runs)
+        rep.check(order.index(stores[0]) < first_run, rule, f.where, 'the limit is recorded before the run starts', got='store after run',
+                  construct='time limit recorded after the run')
+    lp_runs = [e for e in runs if getattr(e.target, 'cls', '') == 'LP_Solver']
+    for e in lp_runs:
+        rep.check(len(e.args) >= 2 and e.args[1] == lim, rule, f.where, 'the same limit is handed to the MILP solver', got=[show(a) for a in e.args], want=ps[1] + ' as second argument',
+                  construct='time limit not passed to LP_Solver.run', loc=e.loc)
+    conds = [c_ for e in stores for (c_, br) in [x for ee, ctx in iter_effects(effs) if ee is e for x in ctx] if c_.kind == 'if']
+    rep.check(not conds, rule, f.where, 'the limit is recorded on every path (LP and brute force)', got=[show(c_.cond)[:60] for c_ in conds], construct='time limit recorded conditionally')
 
 
 # ---- R3 -------------------------------------------------------------------------------------------------
@@ -114,6 +149,32 @@ def check_status_plumbing(rep, repo, rule='C14.R3'):
     rep.check(len(stores) == 1 and stores[0].eff.value == rv and not stores[0].sym_ifs, rule, repo.method('Solver', 'solve').where,
               'model.pulp_status receives exactly the value returned by run()', got=[show(e.eff.value) for e in stores], want=show(rv),
               construct='pulp_status store')
+    # the status is REPORTED: every result text that is not the Timeout notice carries 'pulp_status: ' + that very value
+    gr = repo.method('Model', 'get_results')
+    try:
+        _, text = Interp(repo).run(gr, {p_: S(p_) for p_ in gr.params[1:]}, selfterm=lp.MODEL)
+        alts = []
+        def split(t):
+            if t[0] == 'ite':
+                split(t[2]); split(t[3])
+            elif t != NONE:
+                alts.append(t)
+        split(text)
+        from .. import doc as _doc
+        def has_status(t, items=None):
+            items = _doc.doc_of(t) if items is None else items
+            for a_, b_ in zip(items, items[1:]):
+                if isinstance(a_, _doc.Lit) and a_.text.endswith('pulp_status: ') and isinstance(b_, _doc.Hole) and b_.term == A(lp.MODEL, 'pulp_status'):
+                    return True
+            return any(isinstance(i_, _doc.Alt) and has_status(None, i_.a) and has_status(None, i_.b) for i_ in items)
+        def is_timeout(t, items=None):
+            items = _doc.doc_of(t) if items is None else items
+            return any((isinstance(i_, _doc.Lit) and 'Timeout' in i_.text) or (isinstance(i_, _doc.Alt) and is_timeout(None, i_.a) and is_timeout(None, i_.b)) for i_ in items)
+        missing = [t for t in alts if not is_timeout(t) and not has_status(t)]
+        rep.check(bool(alts) and not missing, rule, gr.where, "every result text other than the Timeout notice reports 'pulp_status: ' followed by model.pulp_status",
+                  got='%d of %d texts lack the status line' % (len(missing), len(alts)), want="'pulp_status: ' + self.pulp_status", construct='status line missing from the results')
+    except Unknown as u:
+        rep.inconclusive(rule, gr.where, 'get_results is inside the interpreted fragment', got=str(u))
     c = pulpfacts.constants()
     rep.check(spec.LPSTATUS_REQUIRED <= c['LpStatusStrings'], rule, 'pulp/constants.py', 'PuLP LpStatus strings are the documented five',
               got=sorted(c['LpStatusStrings']), want=sorted(spec.LPSTATUS_REQUIRED), construct='LpStatus table')
